@@ -161,7 +161,13 @@ func applyEdit(t *wmpt.WeightedMerkleTrie, recs []*bridge.WNode, e PEdit) ([]*br
 		if n == nil || n.Kind != 'V' {
 			return recs, false
 		}
-		n.Value = []byte("forged")
+		if len(n.Value) > 40 {
+			// a forged value that differs from the honest one only in its last byte
+			n.Value = append([]byte(nil), n.Value...)
+			n.Value[len(n.Value)-1] ^= 1
+		} else {
+			n.Value = []byte("forged")
+		}
 	case "drop":
 		if at(e.I) == nil {
 			return recs, false
@@ -266,6 +272,13 @@ func RunProofPlan(w *tr.Writer, st *PStats, tid int, p PPlan) {
 		entries = append(entries, pentry{ab, vw[0].(string), wt})
 	}
 	sort.Slice(entries, func(i, j int) bool { return entries[i].ab < entries[j].ab })
+	// every fourth plan runs on long values (40..130 bytes): the tail of a value is bound by the hashes like its head
+	longVals := tid%4 == 3
+	if longVals {
+		for i := range entries {
+			entries[i].val += LongPad(i + 1)
+		}
+	}
 	// the prover's trie rotates over in-memory / committed at a collapse level / re-opened from storage
 	mode := tid % 9
 	t := buildTrieMode(entries, mode)
@@ -350,6 +363,9 @@ func RunProofRandom(w *tr.Writer, st *PStats, tid *int, r *rand.Rand) {
 		}
 		seen[string(k)] = true
 		v := fmt.Sprintf("v%d", len(rks))
+		if r.Intn(3) == 0 {
+			v += LongPad(len(rks))
+		}
 		wt := uint64(1 + r.Intn(3))
 		rks = append(rks, rk{k, v, wt})
 		if err := t.Update(k, []byte(v), wt); err != nil {
@@ -419,6 +435,10 @@ func RunProofRandom(w *tr.Writer, st *PStats, tid *int, r *rand.Rand) {
 			kind = "bitflip"
 			for f := 0; f < 1+r.Intn(3); f++ {
 				proof[r.Intn(len(proof))] ^= 1 << uint(r.Intn(8))
+			}
+			if r.Intn(2) == 0 && len(proof) > 8 {
+				// the value record comes last: flip inside the tail of the proof bytes as well
+				proof[len(proof)-1-r.Intn(8)] ^= 1 << uint(r.Intn(8))
 			}
 		case 2:
 			kind = "truncate"
